@@ -352,10 +352,7 @@ def bytes_eq(st, a, b):
     # one side has a known length n: equal iff other has length n and items agree
     known, other = (ia, b) if ia is not None else (ib, a)
     if known is None:
-        # same structure?
-        if len(a.segs) == len(b.segs) and all(_seg_same(x, y) for x, y in zip(a.segs, b.segs)):
-            return True
-        raise EngineUnsupported("equality of two bytes values of unknown length")
+        return _bytes_eq_lockstep(st, a, b)
     n = len(known)
     lo = z3.simplify((la if other is a else lb))
     conds = [lo == n]
@@ -365,6 +362,43 @@ def bytes_eq(st, a, b):
         raise EngineUnsupported("bytes equality: cannot index unknown-length value")
     conds += [_int_eq(x, y) for x, y in zip(items, known)]
     return zand(*conds)
+
+
+def _bytes_eq_lockstep(st, a, b):
+    """Both values contain unknown-length views: equal if they split into the same views at
+    the same places with equal known-length runs in between (sufficient condition only -
+    a False here would be unsound, so anything else is 'unsupported')."""
+    def runs(v):
+        out = []
+        cur = []
+        for s in v.segs:
+            n = determined_int(st.pc, seg_len(s))
+            if n is None:
+                out.append(("items", cur))
+                out.append(("view", s))
+                cur = []
+            else:
+                cur = cur + [seg_item(st, s, i) for i in range(n)]
+        out.append(("items", cur))
+        return out
+    ra, rb = runs(a), runs(b)
+    if len(ra) != len(rb):
+        raise EngineUnsupported("equality of two bytes values of unknown length (different shapes)")
+    conds = []
+    for (ka, xa), (kb, xb) in zip(ra, rb):
+        if ka == "view":
+            if not (isinstance(xa, View) and isinstance(xb, View) and _seg_same(xa, xb)):
+                raise EngineUnsupported("equality of two different unknown-length views")
+        else:
+            if len(xa) != len(xb):
+                raise EngineUnsupported("equality of two bytes values of unknown length (run lengths differ)")
+            conds += [_int_eq_bits(st, p, q) for p, q in zip(xa, xb)]
+    return zand(*conds)
+
+
+def _int_eq_bits(st, x, y):
+    r = int_eq(st, x, y)
+    return r
 
 
 def _seg_same(x, y):
@@ -515,6 +549,36 @@ def str_eq(st, a, b):
                 break
         if ok:
             return zand(*conds)
+    # pattern against a concrete string: Fmt pieces are runs of decimal digits
+    if isinstance(a, str) or isinstance(b, str):
+        conc, pat = (a, b) if isinstance(a, str) else (b, a)
+        if isinstance(pat, SStr):
+            import re
+            rx = ""
+            fm = []
+            for seg in pat.segs:
+                if isinstance(seg, str):
+                    rx += re.escape(seg)
+                elif isinstance(seg, Fmt):
+                    w = {"02d": "{2,}", "03d": "{3,}", "d": "+"}.get(seg.spec)
+                    if w is None:
+                        rx = None
+                        break
+                    rx += r"(\d" + w + ")"
+                    fm.append(seg)
+                else:
+                    rx = None
+                    break
+            if rx is not None:
+                m = re.fullmatch(rx, conc)
+                if not m:
+                    return False
+                conds = []
+                for seg, g in zip(fm, m.groups()):
+                    if format(int(g), seg.spec) != g:
+                        return False
+                    conds.append(int_term(seg.v) == int(g))
+                return zand(*conds)
     # try to concretise Fmt pieces
     ca, cb = concretise_str(st, a), concretise_str(st, b)
     if isinstance(ca, str) and isinstance(cb, str):
